@@ -7,7 +7,8 @@ CanonT(FS) == UNION { { StT(<<2, 3, 1, 2>>, <<1, 2, 3, 2, 1>>, f, cx), StT(<<2, 
                  StT(<<2, 3>>, <<1, 3, 1>>, f, cx), StT(<<4, 3>>, <<1, 3, 1>>, f, cx) } : f \in FS, cx \in BOOLEAN }
 SmallM(RS, FS) == UNION { UNION { {StM(mn[1], mn[2], R, f, cx) : R \in RankProfiles(d, RS), cx \in BOOLEAN, f \in FS} :
                                    mn \in SeqsOf({1, 2}, d) \X SeqsOf({1, 2}, d) } : d \in 1..2 }
-CanonM(FS) == UNION { { StM(<<2, 1, 2>>, <<1, 2, 2>>, <<1, 2, 3, 1>>, f, cx), StM(<<3, 2>>, <<3, 2>>, <<1, 3, 1>>, f, cx),
+CanonM(FS) == UNION { { StM(<<4, 2>>, <<2, 3>>, <<1, 2, 1>>, f, cx), StM(<<3>>, <<1>>, <<1, 1>>, f, cx), StM(<<2, 4>>, <<4, 1>>, <<1, 3, 1>>, f, cx),   \* tall and wide modes
+                        StM(<<2, 1, 2>>, <<1, 2, 2>>, <<1, 2, 3, 1>>, f, cx), StM(<<3, 2>>, <<3, 2>>, <<1, 3, 1>>, f, cx),
                         StM(<<2, 3, 2>>, <<2, 3, 2>>, <<1, 2, 3, 1>>, f, cx), StM(<<3>>, <<3>>, <<1, 1>>, f, cx) } : f \in FS, cx \in BOOLEAN }
 Q_TS == SmallT({1, 2}, {1}, 2) \cup CanonT({1})
 T_TS == SmallT({1, 2, 3}, {1, 4}, 3) \cup CanonT({1, 4})
